@@ -3,6 +3,7 @@
 use crate::check::*;
 use crate::explore::*;
 use crate::faults::*;
+use crate::seeds::*;
 use crate::ops::*;
 use crate::statecheck::*;
 use crate::types::*;
@@ -148,12 +149,13 @@ pub fn cmd_explore(opt: &HashMap<String, String>) -> i32 {
     let wall_cap: f64 = opt.get("wall-cap").and_then(|s| s.parse().ok()).unwrap_or(if thorough { 3000.0 } else { 240.0 });
     let d_after: usize = opt.get("d-after").and_then(|s| s.parse().ok()).unwrap_or(if thorough { 2 } else { 1 });
     let known = load_known(opt.get("known"));
+    let known_rules: Vec<String> = known.iter().map(|k| k.rule.clone()).collect();
     let replay_dir = opt.get("replay-dir").cloned().unwrap_or_else(|| "/verif/replays".into());
     let big = thorough;
 
     let u = Universe::new(nkeys, big);
     let gb = growth_bound(&u, &caps);
-    let ctx = Ctx { u: &u, sel, growth_bound: Some(gb), fault_props: 0 };
+    let ctx = Ctx { u: &u, sel, growth_bound: Some(gb), fault_props: 0, extra_ids: vec![], known_rules: known_rules.clone() };
 
     // which state-level checks this property needs
     let want = |n: u32| sel & p(n) != 0;
@@ -210,7 +212,7 @@ pub fn cmd_explore(opt: &HashMap<String, String>) -> i32 {
     // state of the closure is explored for d_after further operations
     if (want(16) || want(17)) && !novel.is_empty() && phases[0].result.machinery.is_none() {
         let fp = sel & (p(16) | p(17));
-        let ctx2 = Ctx { u: &u, sel: fp, growth_bound: None, fault_props: fp };
+        let ctx2 = Ctx { u: &u, sel: fp, growth_bound: None, fault_props: fp, extra_ids: vec![], known_rules: known_rules.clone() };
         let roots2: Vec<Root> = novel
             .iter()
             .map(|(r, h, _)| Root { cfg: roots[*r].cfg, prefix: h.clone(), label: format!("post-fault state after {} steps", h.len()) })
@@ -237,6 +239,54 @@ pub fn cmd_explore(opt: &HashMap<String, String>) -> i32 {
         };
         let result = ex.run(&eo);
         phases.push(Phase { name: format!("continuation after fault (depth {})", d_after), result, roots: roots2, alpha_len, nkeys, fault_props: fp });
+    }
+
+    // seeded, depth-bounded exploration from states the closure cannot reach
+    let no_seeds = opt.contains_key("no-seeds");
+    if !no_seeds && phases.iter().all(|ph| ph.result.machinery.is_none()) {
+        let seed_list = seeds(&u, thorough, fault_only);
+        for sd in seed_list {
+            let ctx_s = Ctx { u: &u, sel, growth_bound: None, fault_props: 0, extra_ids: sd.extra_ids.clone(), known_rules: known_rules.clone() };
+            let so = StateOpts {
+                exhaustive_pat_len,
+                owning: owning && sd.len <= 64,
+                clone,
+                clone_product: if clone_product > 0 && sd.len <= 30 { 1 } else { 0 },
+            };
+            let falpha = sd.alpha.clone();
+            let w16 = want(16);
+            let w17 = want(17);
+            let extra: Option<std::sync::Arc<dyn Fn(&Ctx, &Config, &[Op], &mut Stats) -> ExtraOut + Send + Sync>> = if w16 || w17 {
+                Some(std::sync::Arc::new(move |ctx: &Ctx, cfg: &Config, hist: &[Op], st: &mut Stats| {
+                    let mut out = ExtraOut { viol: vec![], novel: vec![] };
+                    if w16 {
+                        let o = fault_scan(ctx, cfg, hist, &falpha, st);
+                        out.viol.extend(o.viol);
+                    }
+                    if w17 {
+                        let o = forget_scan(ctx, cfg, hist, exhaustive_pat_len, st);
+                        out.viol.extend(o.viol);
+                    }
+                    out
+                }))
+            } else {
+                None
+            };
+            let eo = ExploreOpts {
+                threads,
+                max_depth: if fault_only { 1 } else { sd.depth },
+                max_states: 30_000_000,
+                wall_cap_s: wall_cap,
+                state_opts: if fault_only { None } else { Some(so) },
+                transitions: true,
+                max_violations: 200,
+                extra,
+            };
+            let alpha_len = sd.alpha.len();
+            let mut ex = Explorer::new(&ctx_s, vec![sd.root.clone()], sd.alpha.clone());
+            let result = ex.run(&eo);
+            phases.push(Phase { name: format!("seed {}", sd.root.label), result, roots: vec![sd.root.clone()], alpha_len, nkeys, fault_props: 0 });
+        }
     }
 
     finish(&prop_s, pnum, &tier, seed, &u, big, phases, &known, &replay_dir, opt.get("out"), t0)
@@ -285,7 +335,9 @@ pub fn finish(
         for (k, v) in &r.stats.rule_evals {
             *rules.entry(k).or_insert(0) += v;
         }
-        if !r.fixpoint {
+        // the depth bound of a seeded phase is a stated bound of a finite space
+        // that was enumerated completely; any other cap means "not exhaustive"
+        if !r.fixpoint && !r.cap_hit.as_deref().map(|c| c.starts_with("depth bound")).unwrap_or(false) {
             exhaustive = false;
         }
         for (root, hist) in r.samples.iter().take(4) {
@@ -305,6 +357,18 @@ pub fn finish(
             "pruned_insane_states": r.stats.pruned_insane,
             "wall_s": r.wall_s,
         }));
+        for (rule, (cnt, vr)) in &r.known {
+            for n in (1..=20u32).filter(|n| vr.props & p(*n) != 0) {
+                let pname = prop_name(n);
+                if prop_s != "ALL" && pname != prop_s {
+                    continue;
+                }
+                if let Some(k) = known.iter().find(|k| k.prop == pname && k.rule == *rule) {
+                    let e = known_hits.entry(format!("{} {}", pname, k.rule)).or_insert((k.text.clone(), 0));
+                    e.1 += cnt;
+                }
+            }
+        }
         for vr in &r.violations {
             // attribute to the selected property (or each property when ALL)
             let props: Vec<u32> = (1..=20).filter(|n| vr.props & p(*n) != 0).collect();
@@ -420,7 +484,7 @@ pub fn cmd_replay(opt: &HashMap<String, String>) -> i32 {
     let op = op_from_json(&j["op"]);
     let mode = j["mode"].as_str().unwrap_or("transition").to_string();
     let fault_props = j["fault_props"].as_u64().unwrap_or(0) as Props;
-    let ctx = Ctx { u: &u, sel, growth_bound: None, fault_props };
+    let ctx = Ctx { u: &u, sel, growth_bound: None, fault_props, extra_ids: vec![], known_rules: vec![] };
     let mut st = Stats::default();
     let mut viols: Vec<(String, String)> = vec![];
     for l in show_history(&u, &cfg, &hist, op.as_ref()) {
